@@ -1,6 +1,7 @@
 //! Leaf monitors (no AIR needed): utils, math, crypto, fri, air component properties.
 use vcommon::Args;
 
+mod c10;
 mod c26;
 mod c27;
 
@@ -8,6 +9,8 @@ fn main() {
     vcommon::install_panic_hook();
     let args = Args::parse();
     match args.stage.as_str() {
+        "c10_chains" => c10::chains(&args),
+        "c10_lattice" => c10::lattice(&args),
         "c26_rt" => c26::roundtrip(&args),
         "c26_hostile" => c26::hostile(&args),
         "c27_exh" => c27::exhaustive(&args),
